@@ -254,7 +254,19 @@ def correspond(model_ok, res):
             res.failures.append(({"input": s, "entry": e, "why": "first call of a new process differs",
                                   "fresh": [out[0], str(out[1])[:300]]}, None))
 
-    res.cases = len(calls)
+    # --- numerals of a million digits (beyond decimal's default exponent range): Python oracle only, both entry
+    # points; such a query is well formed, and in any case nothing but a tree or a ParseError may come out
+    import luqum.parser as _P
+    import luqum.thread as _Th
+    huge = PG.huge_numerals()
+    for s in huge:
+        for e, fn in (("module", _P.parser.parse), ("thread", _Th.parse)):
+            k, v = PG.impl_parse(s, fn)
+            if k == "other":
+                res.failures.append(({"input": s[:12] + "...(%d chars)" % len(s), "entry": e,
+                                      "why": "exception that is not a ParseError: " + str(v)[:200]}, None))
+
+    res.cases = len(calls) + 2 * len(huge)
     res.nontrivial = len(seen_nontrivial)
     res.rule = ("histories of parse calls on both entry points, each started from a fresh import of luqum: a fixed "
                 "corpus (first call blank / leading separator / illegal at 0 / syntax error / malformed number, then "
